@@ -8,15 +8,20 @@ import (
 
 // c21Fill: RFC 7292 appendix B.2 steps 2/3 — the salt and the password are
 // each extended to v*ceil(len/v) bytes by repeating them (nothing for an empty
-// input). fillWithRepeats is interpreted with slices represented by their
-// lengths for every pattern length 0..300 and v = 64 (and v = 128 for the
-// SHA-512 family block size): the returned slice must have exactly that
-// length, every byte of it must come from repetitions of the pattern (a prefix
-// of bytes.Repeat(pattern, k) with k*len >= the length, or copies whose source
-// is the pattern), and no slice expression may leave its bounds.
+// input). fillWithRepeats is interpreted on byte CONTENTS (c21Sim) for every
+// pattern length 0..300 and v = 64 (and v = 128 for the SHA-512 family block
+// size), the pattern being n distinct non-zero bytes: the returned slice must
+// have exactly that length and its i-th byte must be pattern[i mod n], and no
+// index or slice expression may leave its bounds. How the repetition is
+// produced (bytes.Repeat and a reslice, a copy loop into a fresh buffer, an
+// append loop, a byte loop, a helper) does not matter.
 func c21Fill(c *Ctx, pk string) {
 	f := c.fn(pk, "fillWithRepeats")
 	if f == nil {
+		return
+	}
+	if len(f.Params) != 2 {
+		c.fail("C21.kdf-fill", "fillWithRepeats", f, "fillWithRepeats no longer takes (pattern, v)")
 		return
 	}
 	pat, vP := f.Params[0], f.Params[1]
@@ -24,86 +29,55 @@ func c21Fill(c *Ctx, pk string) {
 	cases := 0
 	for _, v := range []int64{64, 128} {
 		for n := int64(0); n <= 300 && bad == ""; n++ {
-			w := &pathWalker{env: newEnv(), lengths: true, maxSteps: 20000}
+			s := newC21Sim()
+			w := s.walker(f)
+			w.maxSteps = 40000
+			pattern := make([]int64, n)
+			for i := range pattern {
+				pattern[i] = int64(i*7+3)%251 + 1
+			}
+			s.mem["pattern"] = pattern
 			w.env.bind(pat, n)
+			w.cls[pat], w.off[pat] = "pattern", 0
 			w.env.bind(vP, v)
-			w.cls = map[ssa.Value]string{pat: "pattern"}
-			w.onSlice = func(w *pathWalker, sl *ssa.Slice) {
-				if cl, ok := w.cls[sl.X]; ok {
-					lo := int64(0)
-					if sl.Low != nil {
-						lo, _ = w.env.eval(sl.Low)
-					}
-					if cl == "repeat" && lo != 0 {
-						w.cls[sl] = "repeat-shifted"
-					} else {
-						w.cls[sl] = cl
-					}
-				}
-			}
-			w.onPhi = func(w *pathWalker, ph *ssa.Phi, in ssa.Value) {
-				if cl, ok := w.cls[in]; ok {
-					w.cls[ph] = cl
-				} else {
-					delete(w.cls, ph)
-				}
-			}
-			problem := ""
-			w.onCall = func(w *pathWalker, ci ssa.CallInstruction) string {
-				cc := ci.Common()
-				switch short(calleeName(cc)) {
-				case "bytes.Repeat":
-					l, ok1 := w.env.eval(cc.Args[0])
-					k, ok2 := w.env.eval(cc.Args[1])
-					if !ok1 || !ok2 || k < 0 {
-						problem = "bytes.Repeat with an unevaluated or negative count"
-						return ""
-					}
-					if w.cls[cc.Args[0]] != "pattern" {
-						problem = "something other than the pattern is repeated"
-					}
-					w.env.bind(ci.(ssa.Value), l*k)
-					w.cls[ci.(ssa.Value)] = "repeat"
-				case "builtin:copy":
-					if _, isOut := w.cls[cc.Args[0]]; isOut && w.cls[cc.Args[0]] == "out" {
-						if src := w.cls[cc.Args[1]]; src != "pattern" && src != "out" {
-							problem = "the output is filled from something other than the pattern"
-						}
-					}
-				}
-				return ""
-			}
-			end := w.walk(f.Blocks[0], nil)
+			end := s.walk(w, f)
 			cases++
 			id := fmt.Sprintf("pattern of %d bytes, v=%d", n, v)
+			if s.problem != "" && !s.oob && !w.oob {
+				bad = id + ": " + s.problem
+				break
+			}
+			if end == "panic" || w.oob || s.oob {
+				bad = id + ": a slice or index expression leaves its bounds (fewer repetitions than bytes taken)"
+				break
+			}
 			if end != "return" {
 				bad = id + ": evaluation ended with " + end + " " + w.why
 				break
 			}
-			ret := retVal(w.last.(*ssa.Return), 0)
-			got := int64(0)
-			if !isNilConst(ret) {
-				g, ok := w.env.eval(ret)
-				if !ok {
-					bad = id + ": the result's length does not evaluate"
-					break
-				}
-				got = g
+			ret := w.last.(*ssa.Return).Results[0]
+			got, ok := w.env.eval(ret)
+			if !ok {
+				bad = id + ": the result's length does not evaluate"
+				break
 			}
 			want := v * ((n + v - 1) / v)
-			switch {
-			case problem != "":
-				bad = id + ": " + problem
-			case got != want:
+			if got != want {
 				bad = fmt.Sprintf("%s: %d bytes returned, RFC 7292 B.2 requires v*ceil(len/v) = %d", id, got, want)
-			case w.oob || w.beyondLen:
-				bad = id + ": a slice expression leaves its bounds (fewer repetitions than bytes taken)"
-			case !isNilConst(ret) && w.cls[ret] != "repeat" && w.cls[ret] != "out":
-				if mk, isMk := sliceBase(ret).(*ssa.MakeSlice); !isMk || mk == nil {
-					bad = id + ": the result is not made of repetitions of the pattern"
+				break
+			}
+			res, ok := s.bytesOf(w, ret)
+			if !ok {
+				bad = id + ": the contents of the result do not evaluate"
+				break
+			}
+			for i, b := range res {
+				if b != pattern[int64(i)%n] {
+					bad = fmt.Sprintf("%s: byte %d of the result is not byte %d of the pattern (the result is not made of repetitions of the pattern)", id, i, int64(i)%n)
+					break
 				}
 			}
 		}
 	}
-	c.check(bad == "" && cases == 602, "C21.kdf-fill", "fillWithRepeats", f, "v*ceil(len/v) bytes of repeated pattern for every pattern length 0..300, v in {64,128}", bad)
+	c.check(bad == "" && cases == 602, "C21.kdf-fill", "fillWithRepeats", f, "v*ceil(len/v) bytes, byte i = pattern[i mod len], for every pattern length 0..300, v in {64,128} (interpreted on contents)", bad)
 }
